@@ -649,6 +649,43 @@ func (p *Prog) errorRecordedAt(fn *ssa.Function, lexT *types.Named) map[*ssa.Cal
 		_, ok = loadOfField(lc.Call.Args[0], "errors")
 		return ok
 	}
+	// errCond: +1 if the condition being true means an error has been
+	// recorded, -1 if its being false does, 0 otherwise. Recognises the
+	// hasError() helper and the comparison it stands for, written in place.
+	var errCond func(v ssa.Value) int
+	errCond = func(v ssa.Value) int {
+		if isHasError(v) {
+			return 1
+		}
+		switch x := v.(type) {
+		case *ssa.UnOp:
+			if x.Op == token.NOT {
+				return -errCond(x.X)
+			}
+		case *ssa.BinOp:
+			lc, ok := x.X.(*ssa.Call)
+			if !ok {
+				return 0
+			}
+			if bi, ok := lc.Call.Value.(*ssa.Builtin); !ok || bi.Name() != "len" {
+				return 0
+			}
+			if _, ok := loadOfField(lc.Call.Args[0], "errors"); !ok {
+				return 0
+			}
+			k, ok := constInt(x.Y)
+			if !ok {
+				return 0
+			}
+			switch {
+			case x.Op == token.GTR && k == 0, x.Op == token.NEQ && k == 0, x.Op == token.GEQ && k == 1:
+				return 1
+			case x.Op == token.EQL && k == 0, x.Op == token.LEQ && k == 0, x.Op == token.LSS && k == 1:
+				return -1
+			}
+		}
+		return 0
+	}
 	in := map[*ssa.BasicBlock]bool{}
 	outS := map[*ssa.BasicBlock]bool{}
 	seen := map[*ssa.BasicBlock]bool{}
@@ -667,11 +704,15 @@ func (p *Prog) errorRecordedAt(fn *ssa.Function, lexT *types.Named) map[*ssa.Cal
 				for _, pr := range b.Preds {
 					es := outS[pr]
 					if iff, ok := pr.Instrs[len(pr.Instrs)-1].(*ssa.If); ok && len(pr.Succs) == 2 {
-						if isHasError(iff.Cond) && pr.Succs[0] == b {
-							es = true
-						}
-						if u, ok := iff.Cond.(*ssa.UnOp); ok && u.Op == token.NOT && isHasError(u.X) && pr.Succs[1] == b {
-							es = true
+						switch errCond(iff.Cond) {
+						case 1:
+							if pr.Succs[0] == b {
+								es = true
+							}
+						case -1:
+							if pr.Succs[1] == b {
+								es = true
+							}
 						}
 					}
 					if !es {
